@@ -20,6 +20,7 @@ import (
 	"path/filepath"
 	"strconv"
 	"sync"
+	"sync/atomic"
 	"time"
 
 	"github.com/AdguardTeam/AdGuardHome/internal/aghnet"
@@ -94,8 +95,8 @@ type Node struct {
 	QLog    *RecQueryLog
 	Stats   *RecStats
 
-	Modified int
-	seq      uint64
+	Modified atomic.Int64
+	seq      atomic.Uint64
 	udpConn  *net.UDPConn
 }
 
@@ -181,7 +182,7 @@ func New(cfg *Config) (n *Node, err error) {
 	fc := cfg.Filtering
 	fc.DataDir = cfg.Dir
 	fc.HTTPRegister = n.Mux.Register
-	fc.ConfigModified = func() { n.Modified++ }
+	fc.ConfigModified = func() { n.Modified.Add(1) }
 	fc.ApplyClientFiltering = n.Clients.ApplyClientFiltering
 	fc.SafeBrowsingChecker = cfg.SafeBrowsing
 	fc.ParentalControlChecker = cfg.Parental
@@ -256,7 +257,7 @@ func New(cfg *Config) (n *Node, err error) {
 		Config:          dc,
 		TLSConf:         &dnsforward.TLSConfig{ServerName: cfg.ServerName, StrictSNICheck: cfg.StrictSNI},
 		UpstreamTimeout: cfg.UpTimeout,
-		ConfigModified:  func() { n.Modified++ },
+		ConfigModified:  func() { n.Modified.Add(1) },
 		HTTPRegister:    n.Mux.Register,
 		ServePlainDNS:   true,
 		UsePrivateRDNS:  false,
@@ -341,10 +342,10 @@ var serverTCP = netip.MustParseAddrPort("127.0.0.1:853")
 // Do pushes one request through the front door and returns what the client
 // would have received.
 func (n *Node) Do(q *Query) (r *Reply) {
-	n.seq++
-	r = &Reply{Seq: n.seq}
+	seq := n.seq.Add(1)
+	r = &Reply{Seq: seq}
 	if n.Up != nil {
-		n.Up.SetSeq(n.seq)
+		n.Up.SetSeq(seq)
 	}
 	upStart := 0
 	if n.Up != nil {
